@@ -105,7 +105,12 @@ def check_validator_errors(run, fx, rs):
                     oks += 1
         except H.Budget:
             pass
-        run.check(kinds == {"Range"} and oks > 0, rule, key, "failure -> RangeError",
+        if not kinds:
+            # no failing path is visible in the function's own control flow (the failure comes out of a combinator or a
+            # callee): which error it is, is decided by the value folds of R1.limit-constants, not here
+            run.ok(rule, key, "no failing path visible in %s itself: not decided by this rule" % f.name, f.loc, nontrivial=False)
+            continue
+        run.check(kinds == {"Range"}, rule, key, "failure -> RangeError",
                   "%s fails with %s errors (expected only Range) and has %d success path(s)" % (f.name, sorted(kinds), oks),
                   f.loc)
 
